@@ -47,8 +47,11 @@ META = {
         'Trusted: Python ints, the harness, MKS$/CVS/CVD/CHR$ copying bytes, reading Randomiser._seed (read-only; the '
         'walk also decodes every returned value so a wrong attribute cannot hide a wrong value). Constants a, c, m and the '
         'start-up seed come from documentation (MS KB Q28150; PC-BASIC manual; the five numbers GW-BASIC prints first) '
-        '- see vf/models/c39_rrnd.py. Not pinned by the statement and therefore not demanded: WHICH seed an argument '
-        'of RANDOMIZE or a negative RND argument selects (only: same argument -> same seed), RND(0) directly after '
+        '- see vf/models/c39_rrnd.py. RANDOMIZE arguments of every numeric type are reduced to a 16-bit number as the PC-BASIC '
+        'manual documents (last two bytes of the MKI$/MKS$/MKD$ bytes, xor the preceding two for floats; first four bytes of a double ignored) '
+        'and must then seed exactly as RANDOMIZE of that integer does from the same prior state (differential against the integer path; '
+        'how the integer maps to a seed is not modelled). Not pinned and therefore not demanded: WHICH seed a negative RND argument selects '
+        '(only: same argument -> same seed), RND(0) directly after '
         'start-up/RUN/CLEAR/RANDOMIZE (no "last value" yet; only range and value = seed/2^24 are checked there), arguments '
         'of different type with equal value, RANDOMIZE without argument (prompt), doubles outside the single range as RND '
         'arguments. RND(x>0) is taken to mean RND (GW-BASIC manual). Literal reading kept for "RANDOMIZE with the same '
@@ -64,7 +67,8 @@ META = {
         'LCG constants a=214013, c=2531011, m=2^24 (Microsoft KB Q28150, PC-BASIC reference manual)',
         'start-up seed derived from the first five numbers GW-BASIC prints (.1213501 .651861 .8688611 .7297625 .798853): 0x4FC752',
         'RND(x) with x>0 behaves as RND',
-        'the argument of RANDOMIZE / RND(-x) is identified by its type and bytes (or source text)',
+        'the argument of RND(-x) is identified by its type and bytes (or source text)',
+        'RANDOMIZE reduces its argument to a 16-bit number as documented in the PC-BASIC reference manual (RANDOMIZE)',
     ],
     'exhaustive': {
         'thorough': ('all 2^24 generator states: each is visited exactly once by walking the real step function (16 chained '
@@ -74,10 +78,12 @@ META = {
     'require_counters': {
         'quick': ['states_walked', 'boundary_states_stepped_into', 'values_checked_exact', 'transitions_injectivity_sample', 'restart_by_RUN_seen',
                   'restart_by_CLEAR_seen', 'rnd0_repeat_checked', 'rndneg_same_arg_pairs', 'randomize_same_arg_same_state_pairs',
-                  'randomize_int_args', 'randomize_float_args'],
+                  'randomize_int_args', 'randomize_float_args', 'randomize_args_compared_with_documented_reduction',
+                  'randomize_doubles_with_low_mantissa_bits'],
         'thorough': ['states_walked', 'boundary_states_stepped_into', 'cycle_segments_joined', 'values_checked_exact', 'transitions_injectivity_sample',
                      'restart_by_RUN_seen', 'restart_by_CLEAR_seen', 'rnd0_repeat_checked', 'rndneg_same_arg_pairs',
-                     'randomize_same_arg_same_state_pairs', 'randomize_int_args', 'randomize_float_args'],
+                     'randomize_same_arg_same_state_pairs', 'randomize_int_args', 'randomize_float_args',
+                     'randomize_args_compared_with_documented_reduction', 'randomize_doubles_with_low_mantissa_bits'],
     },
     'timeout': {'quick': 900, 'thorough': 7200},
 }
@@ -405,6 +411,11 @@ class Tracker(object):
             return
         res = self.res
         kind = result[0]
+        # arguments with known bytes are identified by the 16-bit number the manual says RANDOMIZE takes from them
+        if isinstance(argkey, tuple) and argkey[0] in ('cvs', 'cvd'):
+            argkey = ('n', rrnd.randomize_n(argkey[1]))
+        elif isinstance(argkey, tuple) and argkey[0] == 'text' and argkey[1].isdigit() and int(argkey[1]) <= 32767:
+            argkey = ('n', int(argkey[1]))
         byarg = self.maps['rz'].setdefault((argkey, kind), {})
         if oldlow in byarg:
             res.count('randomize_same_arg_same_state_pairs')
@@ -772,7 +783,7 @@ def _low_byte_twin(box, res, fresh):
     return None
 
 
-def _randomize_contexts(box, res, fresh, twin, key, setup, argsrc, case):
+def _randomize_contexts(box, res, fresh, twin, key, setup, argsrc, case, argbytes=None, ncache=None):
     """
     RANDOMIZE <arg> in four histories:
       A, A2: after CLEAR (twice)           -> must be identical (same argument, same state)
@@ -812,6 +823,27 @@ def _randomize_contexts(box, res, fresh, twin, key, setup, argsrc, case):
                       'does not reseed identically (seeds %d vs %d)' % (key, seqs['A'], key, seqs['B'], seeds['A'], seeds['B']), case)
     else:
         res.count('randomize_same_arg_other_history_same')
+    if argbytes is not None:
+        # documented reduction of the argument to a 16-bit number: RANDOMIZE <arg> after CLEAR must give what
+        # RANDOMIZE N% gives after CLEAR for that number (differential against the integer path, same prior state)
+        n = rrnd.randomize_n(argbytes)
+        ref = None if ncache is None else ncache.get(n)
+        if ref is None:
+            out = box.ex(b'CLEAR:N%%=%d:RANDOMIZE N%%' % n)
+            if harness_err(out):
+                res.violation('randomize:unexpected-error', 'RANDOMIZE N%% (=%d) -> %r' % (n, out), case)
+                return seeds['A']
+            ref = (_seed_attr(r), _three(box, res, case))
+            if ncache is not None and len(ncache) < 70000:
+                ncache[n] = ref
+        res.count('randomize_args_compared_with_documented_reduction')
+        if len(argbytes) == 8 and (argbytes[0] or argbytes[1]):
+            res.count('randomize_doubles_with_low_mantissa_bits')
+        if ref != (seeds['A'], seqs['A']):
+            res.violation('randomize:%s-argument-not-reduced-as-documented' % {2: 'integer', 4: 'single', 8: 'double'}.get(len(argbytes), 'other'),
+                          'CLEAR:RANDOMIZE %r (bytes %s): seed %d, values %r/2^24; the manual takes the last two bytes xor the preceding two '
+                          '= %d, and CLEAR:RANDOMIZE %d%% gives seed %d, values %r/2^24'
+                          % (key, bytes(argbytes).hex(), seeds['A'], seqs['A'], n, n, ref[0], ref[1]), case)
     return seeds['A']
 
 
@@ -863,6 +895,7 @@ def _shard_randomize_float(spec, res, harness, rng):
                                             b'\1\0\0\1', b'\0\0\0\0', b'\0\0\0\x90', b'\0\xff\0\x98')]
     directed += [('cvd', bytes(b)) for b in (b'\0\0\0\0\0\0\0\x81', b'\0\0\0\0\0\0\0\x7f', b'\xde\xad\xbe\xef\xff\x80\0\x80',
                                              b'\xff' * 8, b'\0' * 8, b'\1\2\3\4\5\6\7\x88')]
+    ncache = {}
     with harness.Box() as box:
         twin = _low_byte_twin(box, res, fresh)
         for i in range(spec['n']):
@@ -876,10 +909,10 @@ def _shard_randomize_float(spec, res, harness, rng):
             case = ['RANDOMIZE', kind, b.hex()]
             try:
                 if rng.random() < 0.5:
-                    _randomize_contexts(box, res, fresh, twin, (kind, b.hex()), b'', src, case)
+                    _randomize_contexts(box, res, fresh, twin, (kind, b.hex()), b'', src, case, argbytes=b, ncache=ncache)
                 else:
                     var = b'V!' if kind == 'cvs' else b'V#'
-                    _randomize_contexts(box, res, fresh, twin, (kind, b.hex()), var + b'=' + src + b':', var, case)
+                    _randomize_contexts(box, res, fresh, twin, (kind, b.hex()), var + b'=' + src + b':', var, case, argbytes=b, ncache=ncache)
             except harness.Internal as e:
                 res.violation(e.key, str(e), case)
                 continue
@@ -1155,6 +1188,32 @@ def _shard_directed(spec, res, harness):
             _randomize_contexts(box, res, fresh, twin, t.decode(), b'', t, ['RANDOMIZE', t.decode()])
             res.case(('rz-directed', t))
             res.count('randomize_int_args' if t.lstrip(b'-').isdigit() and abs(int(t)) < 32769 else 'randomize_float_args')
+        # every numeric type, bytes of the argument read back through MKI$ / MKS$ / MKD$; doubles with low mantissa bits
+        ncache = {}
+        typed = [(b'%', b'MKI$', x) for x in (b'1', b'-1', b'0', b'32767', b'-32768', b'&H8001', b'255', b'256')]
+        typed += [(b'!', b'MKS$', x) for x in (b'1', b'1.5', b'.1', b'40000', b'-1234.567', b'65536', b'1E+10', b'-1E-10', b'16777215', b'.3333333')]
+        typed += [(b'#', b'MKD$', x) for x in (b'1', b'.25', b'-40960', b'.1', b'3.141592653589793', b'-12345.678', b'1D+20', b'123456789',
+                                                 b'65536.0000152588', b'1.000000000000001', b'.1D-30', b'4294967297', b'-.3333333333333333')]
+        for sigil, mk, lit in typed:
+            var = b'V' + sigil
+            if box.ex(var + b'=' + lit).strip(b'\r\n\xff'):
+                continue
+            ab = box.ev(mk + b'(' + var + b')')
+            if not ab or len(ab) not in (2, 4, 8):
+                continue
+            case = ['RANDOMIZE', (var + b'=' + lit).decode()]
+            _randomize_contexts(box, res, fresh, twin, (var + b'=' + lit).decode(), var + b'=' + lit + b':', var, case,
+                                argbytes=ab, ncache=ncache)
+            res.case(('rz-typed', sigil, lit))
+            res.count('randomize_int_args' if sigil == b'%' else 'randomize_float_args')
+        # typed literals directly as the argument
+        for mk, lit in ((b'MKD$', b'.1#'), (b'MKD$', b'3.141592653589793#'), (b'MKD$', b'1D+20'), (b'MKD$', b'123456789#'),
+                        (b'MKS$', b'.1!'), (b'MKS$', b'1.5!'), (b'MKI$', b'12345%')):
+            ab = box.ev(mk + b'(' + lit + b')')
+            if not ab:
+                continue
+            _randomize_contexts(box, res, fresh, twin, lit.decode(), b'', lit, ['RANDOMIZE', lit.decode()], argbytes=ab, ncache=ncache)
+            res.case(('rz-literal', lit))
         for t in (b'-1', b'-2', b'-.5', b'-1E+10', b'-32768', b'-1.5#', cvs(b'\0\0\x80\x01'), cvs(b'\xff\xff\xff\xff')):
             seqs = []
             for h in (b'CLEAR', b'X=RND:X=RND', b'RANDOMIZE 9'):
